@@ -23,6 +23,9 @@ func runPQ(rep *Report) {
 		if *fTier == "thorough" {
 			p.Steps = 600
 		}
+		if i%4 == 3 {
+			p.Fault = 30 // I/O errors inside flush and ACK transactions
+		}
 		var s *pqrun.Session
 		if i%6 == 5 {
 			s = pqrun.ExactFill(r, cfg, (i/6)%8) // fill a fresh file to the last page, then drain
